@@ -24,6 +24,7 @@ EXPLANATION = (
     "the one module-level sentinel, or emit writers store a fresh object per production; and the first production of any name always advances its "
     "version (R4b), so a consumer that already ran on a default is re-run. (R5) every completion of an emit-capable node produces its signals: each normal return of the executors of function, route, if/else and interrupt nodes is the result of a function that stores the sentinel for every emit output (followed through helper returns and single-assignment temporaries). R3 also requires that the gate-decides-first block is computed before the deferral (a deferred gate still holds its targets back, else the loop synchronised on the signal never evaluates its gate). R5 also covers completions served from the cache: on a hit the whole restored payload (data outputs and re-applied sentinels) is applied, not a projection of it."
     " R5 also requires that the cache key depends on the node's full output names (emit names included) or that the served payload is projected onto the hitting node's outputs: a hit on one node never produces the signal of another node that stored the entry."
+    " R2 also requires that the per-step state copy carries each execution record whole (every field named, or dataclasses.replace)."
 )
 NOT_DECIDED = "Full liveness of arbitrary loops (that the other readiness conditions eventually hold); several waiters per signal are covered only through the per-node bookkeeping."
 
@@ -218,12 +219,14 @@ def run(ctx) -> None:
     has_new_test = bool(names_new) or any(n.kind == "test" and "not in self.values" in src(n.ast) for n in ucfg.nodes)
     ok = has_new_test and all_paths_pass(ucfg.entry, ucfg.exit_return, incs, specialize(val2, ucfg))
     rep.add("C17.R4", f"{uv.qname}:first-production-advances", ok, uv.loc(), "the first production of a name always advances its version" if ok else "the first production of a name can leave its version unchanged (e.g. a first value of None compares equal to 'missing'): consumers that ran earlier on a default are never re-run")
-    # 'newness' must be sampled before the store
-    if names_new:
-        dom = dominators(ucfg.entry)
-        stores = [n for n in ucfg.nodes if n.kind == "stmt" and isinstance(n.ast, ast.Assign) and any(isinstance(t, ast.Subscript) and src(t.value).endswith(".values") for t in n.ast.targets)]
-        newdefs = [n for n in ucfg.nodes if n.kind == "stmt" and isinstance(n.ast, ast.Assign) and isinstance(n.ast.targets[0], ast.Name) and n.ast.targets[0].id in names_new]
-        ok = bool(stores) and all(any(d in dom.get(s, set()) for d in newdefs) for s in stores)
+    # 'newness' must be sampled before the store: every evaluation of '<name> not in self.values' (bound to a local or
+    # written directly in the version test) happens before the value is stored — after the store it is always false
+    dom = dominators(ucfg.entry)
+    stores = [n for n in ucfg.nodes if n.kind == "stmt" and isinstance(n.ast, ast.Assign) and any(isinstance(t, ast.Subscript) and src(t.value).endswith(".values") for t in n.ast.targets)]
+    samplers = [n for n in ucfg.nodes if n.ast is not None and n.kind in ("stmt", "test") and any(isinstance(x, ast.Compare) and len(x.ops) == 1 and isinstance(x.ops[0], (ast.In, ast.NotIn)) and src(x.comparators[0]).endswith(".values") for e in ([n.ast.value] if n.kind == "stmt" and isinstance(n.ast, (ast.Assign, ast.AnnAssign)) and n.ast.value is not None else [n.ast] if n.kind == "test" else []) for x in ast.walk(e))]
+    if samplers or names_new:
+        late = [m for m in samplers if any(s_ in dom.get(m, set()) for s_ in stores)]
+        ok = bool(stores) and bool(samplers) and not late
         rep.add("C17.R4", f"{uv.qname}:newness-before-store", ok, uv.loc(), "'is the name new' is sampled before the value is stored" if ok else "'is the name new' is sampled after the store (always false)")
 
     check_block_before_deferral(ctx, "C17.R3")
